@@ -1,8 +1,8 @@
 \* C17 scenarios (thorough): every tree over 5 candidate paths x 19 link targets x 9 mount configurations x 4 secret roots
 SPECIFICATION Spec
 CONSTANTS
-  TargetIds = {1, 3, 4, 5, 7, 8, 9, 10, 11, 12, 13, 14, 15, 16, 17, 18, 19, 20, 21}
-  MountCfgIds = {1, 2, 3, 4, 5, 6, 7, 8, 9}
+  TargetIds = {1, 3, 4, 5, 7, 8, 9, 10, 11, 12, 13, 14, 15, 16, 17, 18, 19, 20, 21, 22, 23}
+  MountCfgIds = {1, 2, 3, 4, 5, 6, 7, 8, 9, 10, 11}
   SecretIds = {1, 2, 3, 4}
 INVARIANTS Emit
 CHECK_DEADLOCK FALSE
